@@ -1,10 +1,16 @@
 pub mod c01;
+pub mod c02;
+pub mod c03;
+pub mod c14;
 
 use crate::run::Cfg;
 
 pub fn dispatch(cfg: &Cfg) -> i32 {
     match cfg.prop.as_str() {
         "C01" => c01::run(cfg),
+        "C02" => c02::run(cfg),
+        "C03" => c03::run(cfg),
+        "C14" => c14::run(cfg),
         other => {
             eprintln!("unknown property {other}");
             2
